@@ -331,9 +331,10 @@ def parse_fixed_table(table_lines,
 
     def calc_column_indices(line, headers):
         idx = []
+        start = 0
         for h in headers:
-            i = idx[-1] + 1 if idx else 0
-            idx.append(line.index(h, i))
+            idx.append(line.index(h, start))
+            start = idx[-1] + len(h)
         return idx
 
     first_line = calc_offset(table_lines, heading_ignore)
